@@ -140,14 +140,21 @@ def overlapped(c, b, first_doc):
                     state['other'] = b.generate(c)
                 except Exception as e:  # noqa
                     state['other'] = {'raised': core.exc_name(e)}
-            t = threading.Thread(target=run)
+            t = threading.Thread(target=run, daemon=True)
             t.start()
-            t.join()
+            t.join(timeout=0.3)
+            if t.is_alive():
+                # the library serialises generations (a lock around schema()): the second one runs when the first is through
+                state['deferred'] = t
     GATE['hook'] = hook
     try:
         mine = b.generate(c)
     finally:
         GATE['hook'] = None
+    if state.get('deferred') is not None:
+        state['deferred'].join(timeout=30)
+        if state['deferred'].is_alive():
+            return ['the second generation never finished']
     if not state['done']:
         return None                          # too few extractor calls for an overlap
     bad = []
